@@ -206,7 +206,28 @@ fn startup_part(rep: &Arc<Reporter>, args: &Args, hosts_path: &Path, main_cert: 
         ("no main host", settings_toml(Some(&cred), "127.0.0.1:1443", PROTOS_H1, ""), host_entry("ping_hosts", "p.test", main_cert.0, main_cert.1), Some(false)),
         ("key used as certificate", settings_toml(Some(&cred), "127.0.0.1:1443", PROTOS_H1, ""), host_entry("main_hosts", "k.test", main_cert.1, main_cert.1), None),
     ];
+    let mut cases: Vec<(String, String, String, Option<bool>)> = cases.into_iter().map(|(n, a, b, c)| (n.to_string(), a, b, c)).collect();
+    // every pair of host classes sharing a host name (i == j: twice within one class); control: four distinct names start
+    {
+        let classes = ["main_hosts", "ping_hosts", "speedtest_hosts", "reverse_proxy_hosts"];
+        let rp = "[reverse_proxy]\nserver_address = \"127.0.0.1:8080\"\npath_mask = \"/rp\"\n";
+        let build = |names: [Vec<&str>; 4]| -> String {
+            let mut ht = String::new();
+            for (k, class) in classes.iter().enumerate() { for n in &names[k] { ht.push_str(&host_entry(class, n, main_cert.0, main_cert.1)); } }
+            ht
+        };
+        cases.push(("four host classes with distinct names".into(), settings_toml(Some(&cred), "127.0.0.1:1443", PROTOS_H1, rp), build([vec!["m.test"], vec!["p.test"], vec!["s.test"], vec!["r.test"]]), Some(true)));
+        for i in 0..4 {
+            for j in i..4 {
+                let mut names: [Vec<&str>; 4] = [vec!["m.test"], vec![], vec![], vec![]];
+                names[i].push("dup.test");
+                names[j].push("dup.test");
+                cases.push((format!("duplicate host name in {} and {}", classes[i], classes[j]), settings_toml(Some(&cred), "127.0.0.1:1443", PROTOS_H1, rp), build(names), Some(false)));
+            }
+        }
+    }
     for (name, st, ht, want) in cases {
+        let name = name.as_str();
         rep.evals(1);
         rep.distinct(common::fnv(format!("startup|{}", name).as_bytes()));
         let started = common::catch(|| -> Result<(), String> {
